@@ -1,0 +1,113 @@
+//go:build verif
+
+package tls
+
+// Verification hooks for property C27 (exported wrappers only): the certificate SELECTION logic on both sides and the
+// client-certificate policy check, so that the harness can run the real functions on isolated inputs.
+
+import (
+	"net"
+	"time"
+)
+
+// ---- server side: Config.getCertificate
+
+// ZVC27ClientHelloInfo attaches the (unexported) config to a ClientHelloInfo, as clientHelloInfo() does.
+func ZVC27ClientHelloInfo(chi *ClientHelloInfo, config *Config) *ClientHelloInfo {
+	chi.config = config
+	return chi
+}
+
+func ZVC27GetCertificate(c *Config, chi *ClientHelloInfo) (*Certificate, error) {
+	return c.getCertificate(chi)
+}
+
+// ---- client side: CertificateRequest -> CertificateRequestInfo -> certificate
+
+func ZVC27SignatureSchemesForCertificate(version uint16, cert *Certificate) []SignatureScheme {
+	return signatureSchemesForCertificate(version, cert)
+}
+
+func ZVC27SelectSignatureScheme(vers uint16, c *Certificate, peerAlgs []SignatureScheme) (SignatureScheme, error) {
+	return selectSignatureScheme(vers, c, peerAlgs)
+}
+
+// ZVC27CertificateRequestInfo runs certificateRequestInfoFromMsg on a TLS <= 1.2 CertificateRequest with these fields.
+func ZVC27CertificateRequestInfo(vers uint16, certTypes []byte, hasSigAlg bool, sigAlgs []SignatureScheme, cas [][]byte) *CertificateRequestInfo {
+	return certificateRequestInfoFromMsg(vers, &certificateRequestMsg{
+		hasSignatureAlgorithm:        hasSigAlg,
+		certificateTypes:             certTypes,
+		supportedSignatureAlgorithms: sigAlgs,
+		certificateAuthorities:       cas,
+	})
+}
+
+// ZVC27GetClientCertificate runs (*Conn).getClientCertificate for a connection with this configuration.
+func ZVC27GetClientCertificate(config *Config, cri *CertificateRequestInfo) (*Certificate, error) {
+	c := &Conn{config: config}
+	return c.getClientCertificate(cri)
+}
+
+// ---- server side: processCertsFromClient
+
+type zvC27Sink struct{}
+
+func (zvC27Sink) Read(p []byte) (int, error)       { return 0, net.ErrClosed }
+func (zvC27Sink) Write(p []byte) (int, error)      { return len(p), nil }
+func (zvC27Sink) Close() error                     { return nil }
+func (zvC27Sink) LocalAddr() net.Addr              { return nil }
+func (zvC27Sink) RemoteAddr() net.Addr             { return nil }
+func (zvC27Sink) SetDeadline(time.Time) error      { return nil }
+func (zvC27Sink) SetReadDeadline(time.Time) error  { return nil }
+func (zvC27Sink) SetWriteDeadline(time.Time) error { return nil }
+
+// ZVC27ProcessCertsFromClient runs (*Conn).processCertsFromClient on a fresh server connection with this
+// configuration.  alert is the alert sent (-1: none); peers / chains are len(c.peerCertificates) /
+// len(c.verifiedChains) afterwards.
+func ZVC27ProcessCertsFromClient(config *Config, certificate Certificate) (err error, alert int, peers int, chains int) {
+	c := Server(zvC27Sink{}, config)
+	c.vers = VersionTLS12
+	c.haveVers = true
+	err = c.processCertsFromClient(certificate)
+	alert = -1
+	var sent error = c.out.err
+	if pe, ok := sent.(*permanentError); ok {
+		sent = pe.err
+	}
+	if oe, ok := sent.(*net.OpError); ok {
+		if a, ok := oe.Err.(Alert); ok {
+			alert = int(a)
+		}
+	}
+	return err, alert, len(c.peerCertificates), len(c.verifiedChains)
+}
+
+func ZVC27RequiresClientCert(t ClientAuthType) bool { return requiresClientCert(t) }
+
+// ---- tables (T1)
+
+// ZVC27RSASignatureSchemes dumps rsaSignatureSchemes: (scheme, minModulusBytes, maxVersion), in order.
+func ZVC27RSASignatureSchemes() (out [][3]int) {
+	for _, r := range rsaSignatureSchemes {
+		out = append(out, [3]int{int(r.scheme), r.minModulusBytes, int(r.maxVersion)})
+	}
+	return
+}
+
+// ZVC27TypeAndHash runs typeAndHashFromSignatureScheme.
+func ZVC27TypeAndHash(s SignatureScheme) (sigType uint8, hash uint, ok bool) {
+	t, h, err := typeAndHashFromSignatureScheme(s)
+	return t, uint(h), err == nil
+}
+
+// ZVC27Consts: the constants the selection code compares with.
+func ZVC27Consts() map[string]int {
+	return map[string]int{
+		"certTypeRSASign":   certTypeRSASign,
+		"certTypeECDSASign": certTypeECDSASign,
+		"signaturePKCS1v15": int(signaturePKCS1v15),
+		"signatureRSAPSS":   int(signatureRSAPSS),
+		"signatureECDSA":    int(signatureECDSA),
+		"signatureEd25519":  int(signatureEd25519),
+	}
+}
